@@ -815,6 +815,12 @@ def rule_per_element(S, res, phases, cs):
                         src = fg.backward(fg.operand_nodes(bk, ct["args"][0]), node_ok=lambda x: x[0] == bk, edge_ok=secmod.struct_edge)
                         if any(x in all_comp for x in src):
                             hit = (bi, acc)
+            mix = _component_mix(S, c, all_comp) if "CMP" in c.ing else None
+            if mix:
+                bad += 1
+                res.bad("R2.8", "%s|%s|whole-value" % (b.owner.rsplit("::", 1)[-1], "/".join(sorted(c.labels))[:40]),
+                        "the tested value XORs distinct parts of the received message (`%s` and `%s`) into one word before the comparison: a deviation that is the same in both parts cancels, so only a relation between the parts is enforced, not their values" % mix[1],
+                        where(b, mix[0]), key="R2.8|%s|%s|whole-value" % (b.owner.rsplit("::", 1)[-1], "/".join(sorted(c.labels))[:40]))
             inst = "%s|%s|per-element" % (b.owner.rsplit("::", 1)[-1], "/".join(sorted(c.labels))[:40])
             if hit:
                 bad += 1
@@ -823,6 +829,113 @@ def rule_per_element(S, res, phases, cs):
     res.count("equality_checks_examined_for_aggregation", n)
     if not bad:
         res.ok("R2.8", "engine", "", "%d equality / zero checks on message data: none tests a value folded over the elements of a received vector" % n)
+
+
+_XOR_OK_CALLS = ("bitxor", "bitxor_assign", "deref", "clone", "copied", "cloned", "to_owned", "borrow", "as_ref")
+
+
+def _xor_combinator(fg, name, _memo={}):
+    """a local function that only XORs its arguments together (`xor_two_blocks`)"""
+    if name in _memo:
+        return _memo[name]
+    ok = False
+    for k in fg.by_id.get(name, []):
+        bb = fg.bodies[k]
+        ok = True
+        nx = 0
+        for blk in bb.blocks:
+            for st in blk["s"]:
+                if st["k"] == "assign" and st["r"]["k"] == "bin":
+                    if st["r"]["op"] != "BitXor":
+                        ok = False
+                    nx += 1
+            t = blk["t"]
+            if t["k"] == "call":
+                nm = callee_names(t)
+                tl = nm[-1].rsplit("::", 1)[-1] if nm else ""
+                if tl not in _XOR_OK_CALLS:
+                    ok = False
+                if tl in ("bitxor", "bitxor_assign"):
+                    nx += 1
+            elif t["k"] == "switch":
+                ok = False
+        ok = ok and nx > 0
+        break
+    _memo[name] = ok
+    return ok
+
+
+def _component_mix(S, c, all_comp):
+    """(block, (name, name)) when the scalar that check `c` compares was produced by an XOR (in c's body) whose operands
+    bring in two distinct named parts of one received message; None otherwise.  Tuple comparisons and per-part
+    comparisons are not matched, nor is the XOR of the same part over several senders."""
+    fg = S.fg
+    b, bk = c.body, c.bk
+
+    def xor_edge(e):
+        if e.src[0] != bk:
+            return False
+        if e.kind in ("copy", "ref", "base2field", "field2whole", "agg", "alias"):
+            return True
+        if e.kind == "bin":
+            return e.info == "BitXor"
+        if e.kind in ("call", "lcall", "mutarg", "mutarg2"):
+            nm = (e.info or {}).get("names") if isinstance(e.info, dict) else None
+            if not nm:
+                return False
+            return nm[-1].rsplit("::", 1)[-1] in _XOR_OK_CALLS or _xor_combinator(fg, nm[0])
+        return False
+
+    def leaves(operand):
+        if operand["k"] == "const":
+            return {}
+        sl = fg.backward(fg.operand_nodes(bk, operand), node_ok=lambda n: n[0] == bk, edge_ok=xor_edge, local=True)
+        out = {}
+        for n in sl:
+            if n in all_comp and n[2] is None and b.locals[n[1]]["name"] and (S.labels_of(n) & c.labels):
+                out[b.locals[n[1]]["name"]] = b.locals[n[1]]["ty"].lstrip("&")
+        return out
+    # the compared scalars
+    ops = []
+    for cbi, names in c.calls:
+        if any(n.rsplit("::", 1)[-1] in ("ne", "eq") for n in names):
+            for a in b.blocks[cbi]["t"]["args"]:
+                if a["k"] != "const" and not a["p"]["ty"].lstrip("&").startswith("("):
+                    ops.append(a)
+    for st in b.blocks[c.block]["s"]:
+        if st["k"] == "assign" and st["r"]["k"] == "bin" and st["r"]["op"] in ("Ne", "Eq"):
+            ops += [o for o in (st["r"]["a"], st["r"]["b"]) if o["k"] != "const"]
+    if not ops:
+        return None
+    sl = set()
+    for o in ops:
+        sl |= set(fg.backward(fg.operand_nodes(bk, o), node_ok=lambda n: n[0] == bk, edge_ok=xor_edge, local=True).keys())
+    sl_locals = {n[1] for n in sl}
+    for bi, blk in enumerate(b.blocks):
+        pairs = []
+        for st in blk["s"]:
+            if st["k"] == "assign" and st["p"]["l"] in sl_locals and st["r"]["k"] == "bin" and st["r"]["op"] == "BitXor":
+                pairs.append((st["r"]["a"], st["r"]["b"]))
+        t = blk["t"]
+        if t["k"] == "call":
+            nm = callee_names(t)
+            tl = nm[-1].rsplit("::", 1)[-1] if nm else ""
+            if tl == "bitxor" and len(t["args"]) == 2 and t["d"]["l"] in sl_locals:
+                pairs.append((t["args"][0], t["args"][1]))
+            if tl == "bitxor_assign" and len(t["args"]) == 2 and t["args"][0]["k"] != "const" and _ref_target(b, t["args"][0]["p"]["l"]) in sl_locals:
+                pairs.append(({"k": "copy", "p": {"l": _ref_target(b, t["args"][0]["p"]["l"]), "pr": [], "ty": ""}}, t["args"][1]))
+        for x, y in pairs:
+            lx, ly = leaves(x), leaves(y)
+            if not lx or not ly:
+                continue
+            both = dict(lx)
+            both.update(ly)
+            names = sorted(both)
+            for i_ in range(len(names)):
+                for j_ in range(i_ + 1, len(names)):
+                    if both[names[i_]] == both[names[j_]]:
+                        return bi, (names[i_], names[j_])
+    return None
 
 
 def _copy_of(b, l, target, depth=0):
